@@ -38,12 +38,16 @@ CONFIGS = {
     "sc221v": ("sc", np.diag([2, 2, 1]), (), 1.01, 3, 1.01, 1, True),
     "b2s221": ("b2", np.diag([2, 2, 1]), (1,), 1.01, 3, 1.01, None, True),
     "b2s221v": ("b2", np.diag([2, 2, 1]), (1,), 1.01, 3, 1.01, 2, True),
+    "b2s222": ("b2", 2 * np.eye(3, dtype=int), (1,), 1.01, 3, 1.01, None, True),
+    "b2s222v": ("b2", 2 * np.eye(3, dtype=int), (1,), 2.05, 2, 1.01, 6, True),
     "fccnd": ("fcc", np.array([[1, 1, 0], [-1, 1, 0], [0, 0, 2]]), (), 0.8, 3, 0.8, None, True),
     "fcc222": ("fcc", 2 * np.eye(3, dtype=int), (), 0.8, 3, 0.8, None, True),
     "fcc222v": ("fcc", 2 * np.eye(3, dtype=int), (), 0.8, 3, 0.8, 5, True),
     "tet2_211": ("tet2", np.diag([2, 1, 1]), (1,), 1.05, 3, 1.05, None, True),
     "tet2_211v": ("tet2", np.diag([2, 1, 1]), (1,), 1.05, 3, 1.05, 1, True),
     "hcp221": ("hcp", np.diag([2, 2, 1]), (), 1.01, 3, 1.01, None, True),
+    "sc311j": ("sc", np.diag([3, 1, 1]), (), 1.01, 3, 1.01, None, True),
+    "hcp221v": ("hcp", np.diag([2, 2, 1]), (), 1.01, 3, 1.01, 2, True),
     "sc332": ("sc", np.diag([3, 3, 2]), (), 1.01, 3, 1.01, None, True),
     "sc332v": ("sc", np.diag([3, 3, 2]), (), 1.01, 3, 1.01, 4, True),
     "fcc333": ("fcc", 3 * np.eye(3, dtype=int), (), 0.8, 3, 0.8, None, True),
@@ -216,7 +220,13 @@ def jump_record(j):
     return "[i |-> %d, j |-> %d, lo |-> %d, hi |-> %d, rev |-> %d]" % (j["i"], j["j"], j["lo"], j["hi"], j["rev"])
 
 
-def mc_module(name, base, tab, inst, mvs, starts=None, extra_defs=""):
+def alt_record(t, r):
+    jumps = "<<" + ", ".join(jump_record(j) for j in t["Jumps"]) + ">>"
+    return "[Mem |-> %s, Val |-> %s, NE |-> %d, Jumps |-> %s, r |-> %d]" % (
+        to_tla(t["Mem"]), to_tla(t["Val"]), t["NE"], jumps, r)
+
+
+def mc_module(name, base, tab, inst, mvs, starts=None, extra_defs="", alt=None):
     jumps = "<<" + ", ".join(jump_record(j) for j in tab["Jumps"]) + ">>"
     insts = "<<" + ", ".join("[sites |-> %s, val |-> %d]" % (to_tla(st), v) for st, v in inst) + ">>"
     mvset = "{" + ", ".join("<<%s, %s>>" % (to_tla(a), to_tla(b)) for a, b in mvs) + "}"
@@ -230,10 +240,11 @@ MCJumps == %s
 MCInst == %s
 MCMoves == %s
 MCStarts == %s
+MCAlt == %s
 %s
 ====
 """ % (name, base, to_tla(tab["SI"]), to_tla(tab["Mem"]), to_tla(tab["Val"]), jumps, insts, mvset, stset,
-       extra_defs)
+       "<<>>" if not alt else "<<" + ", ".join(alt) + ">>", extra_defs)
     cfg = """
 CONSTANTS
   NS = %d
@@ -247,6 +258,7 @@ CONSTANTS
   Inst <- MCInst
   Moves <- MCMoves
   Starts <- MCStarts
+  Alt <- MCAlt
 """ % (tab["NS"], tab["NI"], tab["NE"], tab["Vac"])
     return mod, cfg
 
